@@ -262,5 +262,49 @@ def temp_sequences():
     return guarded("temps/sequences", run)
 
 
+def tree_shared_with_c04():
+    from tx.p_c04 import parser_builds_a_tree
+    return parser_builds_a_tree()
+
+
+def calls_per_occurrence():
+    """through the real rules: a convertible function placed in any one operand position of any statement form is emitted as
+    exactly one runtime call (C05: "exactly once ... no call or operand is lost") - device statements of the C04 table, the
+    special-address POKEs, assignments, PRINT, FOR bounds, ON selectors"""
+    import re
+    from coco.b09.compiler import convert
+    from tx.p_c04 import ROWS
+
+    def run():
+        res = []
+        forms = sorted({t for _, t, _, _ in ROWS if "{e}" in t or "{s}" in t} | {
+            "POKE 65496,{e}", "POKE 65497,{e}", "POKE &HFFD8,{e}", "POKE &HFFD9,{e}", "POKE {e},{e}", "A1={e}", "A1({e})={e}", "PRINT {e};{e}", "PRINT@{e},{e}",
+            "FOR I1={e} TO {e} STEP {e}", "ON {e} GOTO 10,10", "ON {e} GOSUB 10", "A1$={s}", "A1$={s}+{s}", "IF {e}=1 THEN A1=2", "LET A1={e}+{e}", "WIDTH {e}",
+            "A1=ABS({e})", "A1=LEN({s})", "A1$=LEFT$({s},{e})", "A1$=MID$({s},{e},{e})", "A1=INSTR({e},{s},{s})", "A1$=STRING$({e},{s})", "A1=VARPTR(B2({e}))"})
+        for tmpl in forms:
+            kinds = re.findall(r"\{(e|s)\}", tmpl)
+            bad = []
+            for j, kind in enumerate(kinds):
+                k = [0]
+
+                def sub(m, j=j):
+                    idx = k[0]
+                    k[0] += 1
+                    if idx == j:
+                        return "INT(Q9)" if m.group(1) == "e" else "STR$(Q9)"
+                    return ("B%d" % (idx + 2)) if m.group(1) == "e" else ("C%d$" % (idx + 2))
+                src = re.sub(r"\{(e|s)\}", sub, tmpl)
+                try:
+                    text = convert("10 %s\n" % src, add_standard_prefix=False)
+                except Exception as e:  # noqa
+                    continue        # refused forms are C15's business
+                n = len(re.findall(r"(?i)\brun ecb_(?:int|str)\(Q9,", text))
+                if n != 1:
+                    bad.append(dict(source=src, calls=n, text=text.strip()[:160]))
+            res.append(ob("calls/%s" % tmpl.replace("{e}", "e").replace("{s}", "s"), not bad, "one call per occurrence, in every operand position", bad[:3] or "%d positions" % len(kinds)))
+        return res
+    return guarded("calls", run)
+
+
 def obligations():
-    return patcher_steps() + temp_freshness() + temp_sequences() + replacement_protocol() + print_patcher() + ownership_order()
+    return patcher_steps() + temp_freshness() + temp_sequences() + calls_per_occurrence() + tree_shared_with_c04() + replacement_protocol() + print_patcher() + ownership_order()
